@@ -98,4 +98,9 @@ def clientAddr (xff : Bytes) (peer : Bytes) : Bytes :=
     | some h => h
     | none => []
 
+/-- the same from the header as it arrives: `r.Header.Get("X-Forwarded-For")` is the value of the first
+    `X-Forwarded-For` line (empty when there is none); further lines are not looked at -/
+def clientAddrOf (xffLines : List Bytes) (peer : Bytes) : Bytes :=
+  clientAddr (xffLines.headD []) peer
+
 end Rdpgw.Policy
